@@ -1392,3 +1392,10 @@ package main
 //@   modifies inferred
 //@   loop 1
 //@     iterates [C16] cutoff_follows_the_clock: called("DeleteUnused") > prev(called("DeleteUnused")) ==> called("Now") > prev(called("Now"))
+
+// C17: the name chosen for a new group on this node is one that the ring assigns to this node - however many candidates
+// it takes.
+//@ func (c *Cluster) genLocalTopicName() (name string)
+//@   requires [C17] c != nil ==> c.ring != nil
+//@   modifies inferred
+//@   ensures [C17] local_name_is_owned_here: c != nil ==> lastRingKey == name && lastRingOwner == c.thisNodeName
